@@ -33,11 +33,13 @@ def ref(i, ty):
 
 def worlds():
     """data worlds choosing every runtime type behind the interface / union fields"""
-    types = {"a1": "A", "a2": "A", "b1": "B", "c1": "C", "m1": "M12", "m2": "M21"}
+    types = {"a1": "A", "a2": "A", "b1": "B", "c1": "C", "m1": "M12", "m2": "M21", "x1": "IntBox", "x2": "StrBox", "x3": "StrBox"}
     def obj(i, extra):
         t = types[i]
         if t in ("M12", "M21"):
             return {"type": t, "vals": {"mp1": {"k": "int", "v": "5"}, "mp2": {"k": "int", "v": "6"}, "mq1": {"k": "int", "v": "7"}}}
+        if t in ("IntBox", "StrBox"):
+            return {"type": t, "vals": {"val": {"k": "int", "v": "11"} if t == "IntBox" else {"k": "str", "v": "s" + i}, "fresh": {"k": "int", "v": "12"}}}
         vals = {"id": {"k": "str", "v": i}, "tag": {"k": "int", "v": "4"}}
         vals.update({"A": {"x": {"k": "int", "v": "1"}, "peer": {"k": "null"}, "buddy": {"k": "null"}},
                      "B": {"z": {"k": "int", "v": "2"}}, "C": {"v": {"k": "int", "v": "3"}}}[t])
@@ -48,10 +50,12 @@ def worlds():
         root = {"a": {"k": "null"} if nulls else r("a1"), "b": {"k": "null"} if nulls else r("b1"), "c": {"k": "null"} if nulls else r("c1"),
                 "node": r(node) if node else {"k": "null"}, "u": r(u) if u else {"k": "null"},
                 "nodes": {"k": "list", "items": [r(i) for i in nodes]}, "us": {"k": "list", "items": [r(i) for i in us]}, "n": {"k": "int", "v": "9"},
-                "m12": {"k": "null"} if nulls else r("m1"), "m21": {"k": "null"} if nulls else r("m2"), "extra": {"k": "int", "v": "8"}}
+                "m12": {"k": "null"} if nulls else r("m1"), "m21": {"k": "null"} if nulls else r("m2"), "extra": {"k": "int", "v": "8"},
+                "ibox": {"k": "null"} if nulls else r("x1"), "sbox": {"k": "list", "items": [] if nulls else [r("x2"), r("x3")]}}
         w = {"root": {"type": "Query", "vals": root},
              "a1": obj("a1", {"peer": r(peer) if peer else {"k": "null"}, "buddy": r("b1") if buddy else {"k": "null"}}),
-             "a2": obj("a2", {}), "b1": obj("b1", {}), "c1": obj("c1", {}), "m1": obj("m1", {}), "m2": obj("m2", {})}
+             "a2": obj("a2", {}), "b1": obj("b1", {}), "c1": obj("c1", {}), "m1": obj("m1", {}), "m2": obj("m2", {}),
+             "x1": obj("x1", {}), "x2": obj("x2", {}), "x3": obj("x3", {})}
         return name, w
     return [world("allA", "a1", "a1", ["a1", "a2"], ["a1"], "a2", True),
             world("allB", "b1", "b1", ["b1"], ["b1"], "b1", True),
@@ -120,6 +124,9 @@ def body(c):
     merged_seen = sum(1 for o in obs if o["kind"] == "exec" and ("m12" in o["text"] or "m21" in o["text"]))
     if merged_seen < 50:
         raise vlib.ToolError("vacuity: only %d executed documents select a MergedObject-built type" % merged_seen)
+    boxed_seen = sum(1 for o in obs if o["kind"] == "exec" and o["profile"] != "L" and ("ibox" in o["text"] or "sbox" in o["text"]))
+    if boxed_seen < 50:
+        raise vlib.ToolError("vacuity: only %d executed documents select a concrete instantiation of the generic SimpleObject" % boxed_seen)
     v = vlib.run_tlc_sliced("gql/CachePolicyTrace.tla", "gql/CachePolicyTrace.cfg", c.path("trace.ndjson"), env={"SCHEMA": SCHEMA},
                             slices=(4 if c.quick else 8), timeout=6000, keep_lines=50, xmx="3g")
     c.add_tlc("V CachePolicyTrace", v)
@@ -156,7 +163,7 @@ def body(c):
     c.cov["rule"] = ("M/G: every policy tuple (1, 2, 3 policies) over maxAge in {-1,0,1,2,60} x public/private in the groupings flat, (ab)c, a(bc): %d tuples "
                      "through BatchResponse::cache_control; every 1-/2-/3-field query over the 10 hinted fields of the law profile (%d documents); "
                      "G: every valid document with <= %d selection nodes over the A/B/C/Node/U family incl. the MergedObject-built types M12 = (MP, MQ), M21 = (MQ, MP) "
-                     "and the MergedObject Query root (TLC BFS of Gen_Doc.tla: %d documents%s; object, "
+                     "and the MergedObject Query root, and the concrete instantiations IntBox / StrBox of a generic SimpleObject with one object-level hint (TLC BFS of Gen_Doc.tla: %d documents%s; object, "
                      "interface and union fields, inline and named fragments on every overlapping condition, literal @skip), crossed with 3 hint "
                      "profiles (one hand-made, two seeded) and 5 data worlds (every runtime type behind node/u/nodes/us/peer, lists of mixed types, "
                      "all-null)%s; distinct by (document text, profile, world) / policy tuple; non-trivial: every exec case, batch tuples of >= 2 policies"
@@ -167,6 +174,7 @@ def body(c):
         c.sample({"profile": o["profile"], "world": o["wname"], "text": o["text"], "policy": o["obs"]["policy"], "verdict": verdicts[o["id"]][0]})
     c.assumptions += ["the harness document printer is trusted", "schemas/c20.json mirrors every profile incl. all hints (generated from one table with the macro invocations; its structure is compared with the live registry at start-up, differing hints are reported as drift and judged through the observed policies)",
                       "the object-level hint of a MergedObject-built type is the Merge of its members' object-level hints",
+                      "every concrete(...) instantiation of a generic SimpleObject carries the struct's object-level cache_control and its fields' hints",
                       "the harness worlds hold no errors and no null for a non-null position: the response contains exactly what the reference walk visits",
                       "exact equality is demanded only when every selection is made on an object type and the response holds everything the document selects",
                       "three fixed hint profiles stand for 'generated schemas' (hints are compile-time attributes of derive-built schemas; dynamic schemas cannot carry hints)"]
